@@ -109,7 +109,7 @@ func runC16(c *Ctx) {
 		line, err := fnLine("GetAcsUrlAndBindingForResponse", nil, mustEnc("List md_IndexedEndpointType", acs), []string{tokStr(req)})
 		if err != nil {
 			c.issue(Issue{Kind: "disagreement", What: err.Error(), Site: "fn GetAcsUrlAndBindingForResponse"})
-			return
+			return // (the independent monitor above has already judged this case; the next cases run: `one` is per case)
 		}
 		want := "ok " + tokStr(url) + " " + tokStr(binding)
 		acsCopy := append([]md.IndexedEndpointType{}, acs...)
@@ -171,6 +171,42 @@ func runC16(c *Ctx) {
 		one(acs, rs[c.rng.intn(len(rs))])
 	}
 	b.flush()
+	// end to end: the pair the SSO endpoint persists is the pair the selection function returns for the registered list
+	// and the requested binding - URL and binding of one and the same registered entry
+	for _, acsLabel := range ssoDimVals("acs") {
+		for _, pb := range ssoDimVals("protobinding") {
+			r := runSso(baseCase().with("acs", acsLabel, "protobinding", pb))
+			c.rep.Evaluations++
+			_, okCreates := r.creates()
+			if len(okCreates) == 0 {
+				c.hist("end-to-end", "not-persisted")
+				continue
+			}
+			c.hist("end-to-end", "persisted")
+			var list []md.IndexedEndpointType
+			reg := map[string]string{}
+			for _, a := range r.SP.Acs {
+				list = append(list, md.IndexedEndpointType{Index: a.Index, IsDefault: a.IsDefault, Binding: a.Binding, Location: a.Location})
+				reg[a.Location] = a.Binding
+			}
+			requested := map[string]string{"post": provider.PostBinding, "redirect": provider.RedirectBinding, "artifact": artifactBind, "other": "urn:example:other"}[pb]
+			wantURL, wantBinding := provider.GetAcsUrlAndBindingForResponse(list, requested)
+			gotURL, gotBinding := okCreates[0].Args[0], okCreates[0].Args[1]
+			if b2, found := reg[gotURL]; !found || b2 != gotBinding || gotURL != wantURL || gotBinding != wantBinding {
+				c.issue(Issue{Kind: "violation", What: "the (URL, binding) pair the SSO endpoint persisted is not the registered entry the selection rule picks", Site: "ssoHandleFunc",
+					Class: "persisted-pair:acs=" + acsLabel + ",requested=" + pb, Detail: map[string]interface{}{"registered": r.SP.Acs, "requested": requested, "persisted": []string{gotURL, gotBinding}, "selected": []string{wantURL, wantBinding}}})
+			}
+		}
+	}
 	c.rep.Exhaustive = false
 	c.rep.Notes = append(c.rep.Notes, fmt.Sprintf("exhaustive for list length <= %d, random for lengths %d..%d", maxExh, maxExh+1, maxExh+4))
+}
+
+func ssoDimVals(name string) []string {
+	for _, d := range ssoDims {
+		if d.name == name {
+			return d.vals
+		}
+	}
+	return nil
 }
